@@ -359,10 +359,9 @@ func (h *stHarness) exec(line string) string {
 				return "HANG"
 			}
 		}
-		h.sortSend = true
-		out := h.summary(append(h.collect(), "0:"+resA, "3:"+resB))
-		h.sortSend = false
-		return out
+		// the sends are printed in the order in which they reached the underlying stream: the driver accepts either
+		// order of the two callers and lets its model follow the one that happened
+		return h.summary(append(h.collect(), "0:"+resA, "3:"+resB))
 	case "cancel":
 		if h.cancel != nil {
 			h.cancel()
